@@ -18,7 +18,7 @@ FmtC   == {"b", "e", "E", "f", "g", "G", "x", "X"}
 PrecC  == {"m1", "p0", "p1", "p15"}
 ListC  == {"empty", "ints", "strings", "nested", "mixed", "long"}
 AnyC   == {"int", "str", "map", "list", "bool"}
-EnvC   == {"set", "unset", "emptyname"}
+EnvC   == {"set", "setempty", "unset", "emptyname"}   \* "setempty": the variable exists and its value is the empty string
 PathC  == {"missing", "directory", "emptypath"}
 
 Functions == {"intToFloat", "floatToInt", "intToString", "floatToString", "floatToFormattedString", "boolToString",
